@@ -213,6 +213,31 @@ def run_case(spec):
     M.mon_lifecycle(rec, P, info)
     if info.get("refused_requests"):
         out.label("sim_with_refused_request")
+    # completion is final also after the run: every request on an operator of a pipeline the simulation completed is refused
+    from eudoxia.workload.runtime_status import OperatorState
+    probed = 0
+    for pid, p in rec.pipelines.items():
+        rs = p.runtime_status()
+        if not rs.operator_states or not all(v == OperatorState.COMPLETED for v in rs.operator_states.values()):
+            continue
+        for o in list(rs.operator_states)[:3]:
+            for target in OperatorState:
+                before = (dict(rs.operator_states), dict(rs.state_counts))
+                try:
+                    o.transition(target)
+                    raised = False
+                except Exception:
+                    raised = True
+                probed += 1
+                if not raised:
+                    P("C02:request-on-completed-operator-accepted", f"after the run: {pid} operator {getattr(o, '_vidx', '?')} completed -> {target.value} was not refused")
+                if (dict(rs.operator_states), dict(rs.state_counts)) != before or o.state() != OperatorState.COMPLETED:
+                    P("C02:completed-operator-changed", f"after the run: request completed -> {target.value} changed the state of {pid}")
+        if probed > 40:
+            break
+    if probed:
+        out.label("probed_completed_after_run")
+        out.extra_evals += probed
     out.nontrivial = bool(c["retry"] or c["nsus"])
     return out
 
